@@ -36,12 +36,15 @@ type c13Case struct {
 	Utime   *int64 `json:"utime,omitempty"` // ns
 	XattrEH bool   `json:"xattreh"`
 	Notify  bool   `json:"notify"`
+	// CrossFS: the destination root lies on another file system than the source
+	// (tmpfs <-> the disk-backed one), where in-kernel copy shortcuts do not apply
+	CrossFS bool `json:"crossfs,omitempty"`
 }
 
 var c13TreeCfg = h.TreeCfg{
 	MaxEntries: 12, MaxDepth: 3, Names: []string{"a", "b", "ab", "a-b", "a.b", "c", "sub", "d", "é", "x y"},
 	Kinds:  []h.Kind{h.KFile, h.KFile, h.KFile, h.KSymlink, h.KFifo, h.KChar, h.KBlock},
-	Xattrs: true, XattrNS: []string{"user.", "trusted."}, Hardlinks: true, BigFiles: true, Caps: true,
+	Xattrs: true, XattrNS: []string{"user.", "trusted."}, Hardlinks: true, BigFiles: true, Caps: true, FarTimes: true,
 	SymTargets: []string{"a", "b", "../a", "/a", "/sub", "sub", "dangling", "../../outside", "."},
 }
 
@@ -99,6 +102,7 @@ func genC13(t *rapid.T) *c13Case {
 		c.XattrEH = rapid.Bool().Draw(t, "xeh")
 	}
 	c.Notify = rapid.Bool().Draw(t, "notify")
+	c.CrossFS = rapid.IntRange(0, 3).Draw(t, "crossfs") == 0
 	return c
 }
 
@@ -165,6 +169,7 @@ func c13Expect(c *c13Case, e *h.Entry) (*h.Entry, error) {
 	}
 	if c.Utime != nil {
 		out.Mtime = *c.Utime
+		out.MtimeSec = secFloor(*c.Utime)
 	}
 	return &out, nil
 }
@@ -172,6 +177,13 @@ func c13Expect(c *c13Case, e *h.Entry) (*h.Entry, error) {
 func c13Check(env *h.Env, c *c13Case) error {
 	srcRoot := filepath.Join(env.Scratch, "src")
 	dstRoot := filepath.Join(env.Scratch, "dst")
+	if c.CrossFS {
+		if other := h.OtherFSDir(env.Scratch); other != "" {
+			defer h.RemoveAllForce(other)
+			dstRoot = filepath.Join(other, "dst")
+			env.Class("cross-filesystem")
+		}
+	}
 	for _, d := range []string{srcRoot, dstRoot} {
 		if err := os.Mkdir(d, 0o755); err != nil {
 			return h.Infra(err)
